@@ -171,4 +171,16 @@ CHECKS = {
         technique='static AST normalisation to an event list and structural comparison with reference parameter sets; taint-free-branch and count-guard rules',
         design_ref='3-H, 4-C18',
     ),
+    'C20': dict(
+        category='other',
+        text='Decides four narrow structural clauses of the Apache-style parser, not the callback stream or the INI entry list as a '
+             'function of the document: B1 the boolean classifier recognises all eight documented spellings case-insensitively and '
+             'separates true / false / not-a-boolean; B2 the type check accepts exactly the two boolean outcomes and normalises to '
+             '"1"/"0"; B3 every failure exit records a message with file and line or propagates a nested failure; B4 the returned '
+             'count is incremented once per processed directive and nested counts are added.',
+        note='Tokenising, quoting/escaping, section scoping, argument-count checks, @INCLUDE and ${} expansion are value/grammar '
+             'behaviour and are not decided.',
+        technique='static literal-set / return-value table extraction from the classifier CFG and structural rules on the parser loop',
+        design_ref='3-G, 4-C20',
+    ),
 }
